@@ -112,7 +112,7 @@ def gen(rng, tier):
         tj = hx(tdgen.dumps(doc))
         add("cli.sign_td %s %s %s %s" % (mn, pw, sel, tj), ("sign_td",), {"address_of": (mn, pw, sel), "digest_cmd": "cli.hash_td %s 0" % tj})
         # every kind takes part in the sign | hash pipeline, the pre-EIP-155 legacy form (no chain id, override flag) included
-        forced = [("legacy", "absent"), ("legacy", 1), ("eip2930", None), ("eip1559", None), (None, None)][_i % 5]
+        forced = [("legacy", "absent"), ("legacy", 1), ("eip2930", None), ("eip1559", None), (None, None), ("legacy", 0)][_i % 6]
         j, exp = txgen.rand_tx(rng, kind=forced[0], chain=forced[1])
         allow = 1 if exp.get("chainId") is None and exp["kind"] == "legacy" and (forced[1] == "absent" or rng.random() < 0.7) else rng.randrange(2)
         add("cli.sign_tx %s %s %s %s 1 %d" % (mn, pw, sel, hx(j), allow), ("sign_tx", "sigonly"), {"address_of": (mn, pw, sel), "digest_cmd": "cli.hash_tx %s none" % hx(j), "pipeline": hx(j), "allow": allow})
